@@ -88,6 +88,10 @@ def explore_algebra(case):
                 parts = [b.copy() for b in base]
                 parts[rs] = ax * t
                 elems.append(dict(tag="harvest(theta=%r)" % t, p=np.concatenate(parts)))
+    for op_ in ("left_jacobian", "right_jacobian", "left_jacobian_inv", "right_jacobian_inv"):
+        for p_ in harvest.lie_members(B, op_, seed, tier):
+            elems.append(dict(tag="harvest(%s)" % op_, p=p_))
+            res.add_set("harvested_members", "%s.%s" % (alg, op_))
     # the upper end of the stated domain [0, 2 pi): the inverse Jacobians have their pole at 2 pi; members approach it from below
     for k, ax in enumerate(alpha.axes(seed)):
         for d in NEAR_FULL_TURN:
